@@ -18,8 +18,8 @@ C01_EVENTS = {"new", "slice", "read", "set", "apply", "applyslice", "copyfrom", 
 def configs(ctx):
     if ctx.quick:
         return [("NdArray_views.cfg", None), ("NdArray_writes.cfg", None), ("NdArray_chainw.cfg", None),
-                ("NdArray_reduce.cfg", None), ("NdArray_zstep.cfg", None), ("NdArray_bcast.cfg", None), ("NdArray_siblings.cfg", None), ("NdArray_twowrites.cfg", None), ("NdArray_sim.cfg", (20, 14))]
-    return [("NdArray_views.cfg", None), ("NdArray_writes.cfg", None), ("NdArray_chainw.cfg", None), ("NdArray_reduce.cfg", None), ("NdArray_zstep.cfg", None), ("NdArray_bcast_t.cfg", None), ("NdArray_siblings.cfg", None), ("NdArray_twowrites.cfg", None),
+                ("NdArray_reduce.cfg", None), ("NdArray_zstep.cfg", None), ("NdArray_bcast.cfg", None), ("NdArray_siblings.cfg", None), ("NdArray_twowrites.cfg", None), ("NdArray_rank4.cfg", (15, 8)), ("NdArray_sim.cfg", (20, 14))]
+    return [("NdArray_views.cfg", None), ("NdArray_writes.cfg", None), ("NdArray_chainw.cfg", None), ("NdArray_reduce.cfg", None), ("NdArray_zstep.cfg", None), ("NdArray_bcast_t.cfg", None), ("NdArray_siblings.cfg", None), ("NdArray_twowrites.cfg", None), ("NdArray_rank4.cfg", (120, 8)),
             ("NdArray_views_t.cfg", None), ("NdArray_views3.cfg", None), ("NdArray_writes_t.cfg", None), ("NdArray_sim.cfg", (240, 16))]
 
 
